@@ -153,10 +153,12 @@ def col_np(col, w0=1):
     if kind == "1d":
         return np.array([int(x) for x in data], dtype=np.int64)
     w = len(data[0]) if data else w0           # an empty 2-D column has no width of its own: take it from its siblings
-    return np.array([[int(x) for x in r] for r in data], dtype=np.int64).reshape(len(data), w)
+    m = np.array([[int(x) for x in r] for r in data], dtype=np.int64).reshape(len(data), w)
+    return np.asfortranarray(m) if _LAYOUT[0] in ("F", "mixed") else np.ascontiguousarray(m.T).T if _LAYOUT[0] == "T" else m
 
 
 _INHERIT = [False]
+_LAYOUT = ["C"]
 
 
 def mk_table(t, widths=None):
@@ -223,6 +225,7 @@ def shallow_cols(t):
 def op_dc(c, o):
     op = c[0]
     _INHERIT[0] = bool(o.get("inherit"))
+    _LAYOUT[0] = o.get("layout", "C")
     if op == "dc_new":
         return proj_table(mk_table(c[1]))
     if op == "dc_len":
@@ -256,7 +259,14 @@ def op_dc(c, o):
         t = mk_table(c[1])
         return proj_table(t.astype(cls_for(c[2])))
     if op == "vl_concat":
-        ms = [VarLenArray(np.array(m, dtype=np.int64).reshape(len(m), len(m[0]))) for m in c[1]]
+        def lay(x, k):                              # the same block in another memory layout is the same block
+            L = o.get("layout", "C")
+            if L == "F" or (L == "mixed" and k % 2):
+                return np.asfortranarray(x)
+            if L == "T":
+                return np.ascontiguousarray(x.T).T
+            return x
+        ms = [VarLenArray(lay(np.array(m, dtype=np.int64).reshape(len(m), len(m[0])), k)) for k, m in enumerate(c[1])]
         r = np.concatenate(ms)
         return ["matrix2", [[int(x) for x in row] for row in np.asarray(r.array).tolist()]]
     raise ValueError(op)
